@@ -499,6 +499,10 @@ pub fn run_c18(tier: &str) -> i32 {
 // ---------------------------------------------------------------------------------------------
 // C09
 
+thread_local! {
+    static DRAIN_REC: crate::rec::Recorder = crate::rec::Recorder::install();
+}
+
 fn restore_key(level: &PriceLevel) -> (u64, u64, u64, usize, Vec<Rec>, String, MatchObs) {
     pricelevel::verif_hooks::set_listing_permutation(Some(0));
     let o = observe(level);
@@ -507,15 +511,27 @@ fn restore_key(level: &PriceLevel) -> (u64, u64, u64, usize, Vec<Rec>, String, M
     // the maker sequence of a draining match shows the stored order sequence; books whose
     // price x quantity products exceed 64 bits (outside the stated precondition) cannot be drained
     // under overflow checks - for those the sequence is not observed
-    let d = std::panic::catch_unwind(std::panic::AssertUnwindSafe(|| {
-        match_obs(&level.match_order(crate::seq_level::DRAIN_QTY, oid(999), &g))
-    }))
-    .unwrap_or(MatchObs {
-        fills: vec![],
-        remaining: 0,
-        complete: false,
-        filled: vec![],
+    let d = DRAIN_REC.with(|r| {
+        r.with_budget(20_000, || {
+            match_obs(&level.match_order(crate::seq_level::DRAIN_QTY, oid(999), &g))
+        })
     });
+    let d = match d {
+        Ok(d) => d,
+        // did not return: make it visible as a distinct, comparable marker (remaining = MAX)
+        Err(crate::rec::BudgetOrPanic::Budget) => MatchObs {
+            fills: vec![],
+            remaining: u64::MAX,
+            complete: false,
+            filled: vec![],
+        },
+        Err(crate::rec::BudgetOrPanic::Panic(_)) => MatchObs {
+            fills: vec![],
+            remaining: 0,
+            complete: false,
+            filled: vec![],
+        },
+    };
     (
         o.price,
         o.vis,
